@@ -30,7 +30,7 @@ for r in rows:
     out.append('| ' + ' | '.join(r) + ' |')
 n = len(rows); c = sum(1 for r in rows if r[4].startswith('caught'))
 out += ['', '%d of %d seeded changes are reported as VIOLATION by the registered checks.' % (c, n), '']
-waves = {'s': 'wave 1 (`-sN`)', 't': 'wave 2 (`-tN`)', 'u': 'wave 3 (`-uN`, asked for restructuring changes)'}
+waves = {'s': 'wave 1 (`-sN`)', 't': 'wave 2 (`-tN`)', 'u': 'wave 3 (`-uN`, asked for restructuring changes)', 'v': 'wave 4 (`-vN`, hold-out: written after the machinery was final)'}
 for k, name in waves.items():
     rs = [r for r in rows if r[0].split('-')[1][0] == k]
     if rs:
@@ -40,5 +40,14 @@ for k, name in waves.items():
         e0 = [r[0] for r in rs if r[4] == 'exit 0']
         out.append('* %s: %d changes, %d caught in the quick tier, %d only in the thorough tier, undecided (exit 2): %s, missed (exit 0): %s' % (
             name, len(rs), q, t, ', '.join(e2) or 'none', ', '.join(e0) or 'none'))
+fp = []
+for sid in sorted(os.listdir(os.path.join(V, 'seeded'))):
+    f = os.path.join(V, 'seeded', sid, 'result_firstpass.json')
+    if os.path.exists(f):
+        r = json.load(open(f))
+        fp.append((sid, 'caught' if r.get('caught') else 'exit %s' % r.get('exit')))
+if fp:
+    out += ['', 'First-pass results of the hold-out wave (before any strengthening prompted by it): %d of %d caught; not caught: %s' % (
+        sum(1 for x in fp if x[1] == 'caught'), len(fp), ', '.join('%s (%s)' % x for x in fp if x[1] != 'caught') or 'none')]
 open(os.path.join(V, 'seeded', 'REPORT.md'), 'w').write('\n'.join(out) + '\n')
 print('%d/%d caught' % (c, n))
